@@ -51,7 +51,9 @@ pub struct Node {
 }
 impl PartialEq for Node {
     fn eq(&self, o: &Self) -> bool {
-        self.key == o.key && self.devs == o.devs && self.bad == o.bad
+        // `goal` (the non-vacuity witness) may depend on the history, not only on the state: keeping it in
+        // the identity prevents a goal-reaching path from being merged into an earlier visit of the same state
+        self.key == o.key && self.devs == o.devs && self.bad == o.bad && self.goal == o.goal
     }
 }
 impl Eq for Node {}
@@ -60,6 +62,7 @@ impl Hash for Node {
         self.key.hash(h);
         self.devs.hash(h);
         self.bad.hash(h);
+        self.goal.hash(h);
     }
 }
 
